@@ -493,7 +493,7 @@ const roundDeadline = 12 * time.Second
 
 // runScenario returns the observations of the rounds that were run; hung = the last of
 // them did not end (the process must not be reused: goroutines are stuck).
-func runScenario(in *input) (obs []roundOut, discard bool, hung bool) {
+func runScenario(in *input, emit func(interface{})) (discard bool, hung bool) {
 	registerOnce.Do(func() {
 		log.SetDebugVisible(0)
 		log.OutputToBuf()
@@ -509,7 +509,7 @@ func runScenario(in *input) (obs []roundOut, discard bool, hung bool) {
 	defer l.CloseAll()
 	port, err := strconv.Atoi(srv.ServerIdentity.Address.Port())
 	if err != nil {
-		return nil, true, false
+		return true, false
 	}
 	base := "http://" + srv.ServerIdentity.Address.Host() + ":" + strconv.Itoa(port+1)
 	// the scenario is reached only if the websocket port answers
@@ -525,7 +525,7 @@ func runScenario(in *input) (obs []roundOut, discard bool, hung bool) {
 	}
 	okc.CloseIdleConnections()
 	if !reached {
-		return nil, true, false
+		return true, false
 	}
 	actors := make([]*actor, len(in.Clients))
 	for i, c := range in.Clients {
@@ -619,12 +619,12 @@ func runScenario(in *input) (obs []roundOut, discard bool, hung bool) {
 					sout[i] = streamObs{Status: "dead", Raw: "conversation did not end within " + roundDeadline.String()}
 				}
 			}
-			obs = append(obs, roundOut{out, sout})
-			return obs, false, true
+			emit(roundOut{out, sout})
+			return false, true
 		}
-		obs = append(obs, roundOut{out, sout})
+		emit(roundOut{out, sout})
 	}
-	return obs, false, false
+	return false, false
 }
 
 // ---------------------------------------------------------------- Coq terms
@@ -997,35 +997,27 @@ func childMain() {
 			say("X")
 			continue
 		}
-		obs, discard, hung := func() (o []interface{}, d bool, h bool) {
+		emit := func(x interface{}) {
+			b, _ := json.Marshal(x)
+			say("R " + string(b))
+		}
+		discard, hung := func() (d bool, h bool) {
 			defer func() {
 				// the scenario could not be set up (e.g. the port picked for the
 				// test server was taken in the meantime): not reached, not reported
 				if r := recover(); r != nil {
 					fmt.Fprintln(os.Stderr, "setup panic:", r)
-					o, d, h = nil, true, false
+					d, h = true, false
 				}
 			}()
 			if inp.Par != nil {
-				steps, d, h := runPar(&inp)
-				for _, x := range steps {
-					o = append(o, x)
-				}
-				return o, d, h
+				return runPar(&inp, emit)
 			}
-			rounds, d, h := runScenario(&inp)
-			for _, x := range rounds {
-				o = append(o, x)
-			}
-			return o, d, h
+			return runScenario(&inp, emit)
 		}()
 		if discard {
 			say("X")
 			continue
-		}
-		for _, rd := range obs {
-			b, _ := json.Marshal(rd)
-			say("R " + string(b))
 		}
 		if hung {
 			say("H")
@@ -1534,6 +1526,15 @@ func generate(rng *rand.Rand, tier string) []interface{} {
 		ins = append(ins, gatedScenario(rng, n))
 	}
 
+	// (a3) conversations on the streaming path next to ordinary requests of other clients
+	for n := 0; n < 14*mul; n++ {
+		ins = append(ins, streamScenario(rng, n))
+	}
+	// (a4) the repository's own client API against 2-4 servers that answer differently
+	for n := 0; n < 22*mul; n++ {
+		ins = append(ins, parScenario(rng, n))
+	}
+
 	// (b) sequential REST histories
 	for n := 0; n < 45*mul; n++ {
 		nc := 1 + rng.Intn(3)
@@ -1714,6 +1715,8 @@ func corpus() []interface{} {
 				{Client: 0, Ws: &wsReq{Path: 2, S: sp("after"), I: ip(7), B: bp(true), D: sp("")}},
 			}},
 			Scripts: [][]int{{0, 1, -1, 2, -1, -1}}},
+		parWitness(),
+		streamWitness(),
 		// the same history on a single-use client is fine
 		input{Kind: "witness", Clients: []client{{Keep: false, Svc: true}}, Rounds: [][]req{
 			ws(0, "a"), ws(0, "fail-1"), ws(0, "a"), ws(0, "panic-1"), ws(0, "hello"),
